@@ -2,7 +2,7 @@
    Only statements here; proofs live in Proof/ExprC07.v (and Proof/Expr.v for the
    flat-evaluator = precedence-tree theorem it re-uses).
    (Coq's Floats library is deliberately not imported: see Properties/C06.v.) *)
-From Murex Require Import Base.Outcome Base.Bytes Model.Expr Model.ExprSpec Check.C06 Check.C07
+From Murex Require Import Base.Outcome Base.Bytes Model.Expr Model.ExprSpec Model.ExprBuiltins Check.C06 Check.C07
      Gen.Truthy Proof.ExprClimb Proof.Expr Proof.ExprC06 Proof.ExprC07.
 Import ListNotations.
 
@@ -25,25 +25,25 @@ Proof. exact nonzero_exit_false. Qed.
 Print Assumptions C07_nonzero_exit_false.
 
 (* && and || for ALL operand values (numbers, booleans, strings, null) *)
-Theorem C07_and_spec : forall a b,
-  apply_go And a b = Some (VBool (spec_truthy a && spec_truthy b)).
+Theorem C07_and_spec : forall orc a b,
+  apply_go orc And a b = Some (VBool (spec_truthy a && spec_truthy b)).
 Proof. exact and_spec. Qed.
 Print Assumptions C07_and_spec.
 
-Theorem C07_or_spec : forall a b,
-  apply_go Or a b = Some (VBool (spec_truthy a || spec_truthy b)).
+Theorem C07_or_spec : forall orc a b,
+  apply_go orc Or a b = Some (VBool (spec_truthy a || spec_truthy b)).
 Proof. exact or_spec. Qed.
 Print Assumptions C07_or_spec.
 
 (* ?: yields a if a is truthy and b otherwise — for all values except a = -0 (known finding 1) *)
-Theorem C07_elvis_spec : forall a b,
-  is_neg_zero a = false -> apply_go Elvis a b = Some (if spec_truthy a then a else b).
+Theorem C07_elvis_spec : forall orc a b,
+  is_neg_zero a = false -> apply_go orc Elvis a b = Some (if spec_truthy a then a else b).
 Proof. exact elvis_spec. Qed.
 Print Assumptions C07_elvis_spec.
 
 (* ?? yields a unless a is null *)
-Theorem C07_nullco_spec : forall a b,
-  apply_go NullCo a b = Some (match a with VNull => b | _ => a end).
+Theorem C07_nullco_spec : forall orc a b,
+  apply_go orc NullCo a b = Some (match a with VNull => b | _ => a end).
 Proof. exact nullco_spec. Qed.
 Print Assumptions C07_nullco_spec.
 
@@ -54,13 +54,40 @@ Theorem C07_truthy_uniform : forall v,
 Proof. exact truthy_uniform. Qed.
 Print Assumptions C07_truthy_uniform.
 
+(* Statement-level users of truthiness, against a model of what each builtin
+   does (if.go, andor.go, while.go, typemgmt cmdNot): for every builtin, either
+   polarity (`if` / `!if`, ...), and every list of condition-block results
+   (stdout, exit number >= 0), the builtin's branch / exit number / number of
+   condition blocks run / number of loop iterations is the one prescribed by the
+   single truthiness function of (stdout, exit). *)
+Theorem C07_truthy_uniform_builtins : forall b neg cs,
+  in_domain cs = true -> run_builtin b neg cs = spec_builtin b neg cs.
+Proof. exact truthy_uniform_builtins. Qed.
+Print Assumptions C07_truthy_uniform_builtins.
+
+Theorem C07_builtins_meet_spec : forall b neg cs,
+  spec_ok (CaseBuiltin b neg cs (run_builtin b neg cs)) = true.
+Proof. exact builtins_meet_spec. Qed.
+Print Assumptions C07_builtins_meet_spec.
+
+(* a positive exit number makes a condition false whatever it printed *)
+Theorem C07_positive_exit_false : forall c, (0 < cd_exit c)%Z -> is_true c = false.
+Proof. exact positive_exit_false. Qed.
+Print Assumptions C07_positive_exit_false.
+
+(* (outside the property text: a negative exit number, which only and/or produce
+   as their success marker, makes it true) *)
+Theorem C07_negative_exit_true : forall c, (cd_exit c < 0)%Z -> is_true c = true.
+Proof. exact negative_exit_true. Qed.
+Print Assumptions C07_negative_exit_true.
+
 (* Closure under nesting, comparisons and arithmetic (re-uses the C06 theorem):
    for every token list of any length and nesting, outside known finding 1, the
    model returns the value prescribed by the textbook tree with the property's
    truthiness. *)
-Theorem C07_model_meets_spec : forall ts,
-  classify (CaseExpr ts (obs_of (eval_expr ts))) = 0%N ->
-  spec_ok (CaseExpr ts (obs_of (eval_expr ts))) = true.
+Theorem C07_model_meets_spec : forall orc ts,
+  classify (CaseExpr ts orc (obs_of (eval_expr orc ts))) = 0%N ->
+  spec_ok (CaseExpr ts orc (obs_of (eval_expr orc ts))) = true.
 Proof. exact model_meets_spec07. Qed.
 Print Assumptions C07_model_meets_spec.
 
@@ -75,13 +102,22 @@ Print Assumptions C07_elvis_negzero_refuted.
    before the fix: (true && false) = true and ('' || 'off') = true. *)
 Example C07_nonvacuous :
   is_neg_zero (VStr [111;102;102]%N) = false /\
-  classify (CaseExpr [PV (VBool true); PO And; PV (VBool false)]
-                     (obs_of (eval_expr [PV (VBool true); PO And; PV (VBool false)]))) = 0%N /\
-  spec_ok (CaseExpr [PV (VBool true); PO And; PV (VBool false)]
+  classify (CaseExpr [PV (VBool true); PO And; PV (VBool false)] no_oracles
+                     (obs_of (eval_expr no_oracles [PV (VBool true); PO And; PV (VBool false)]))) = 0%N /\
+  spec_ok (CaseExpr [PV (VBool true); PO And; PV (VBool false)] no_oracles
                     {| o_kind := 0; o_val := VBool true |}) = false /\
-  spec_ok (CaseExpr [PP [PV (VStr []); PO Or; PV (VStr [111;102;102]%N)]]
+  spec_ok (CaseExpr [PP [PV (VStr []); PO Or; PV (VStr [111;102;102]%N)]] no_oracles
                     {| o_kind := 0; o_val := VBool true |}) = false /\
-  spec_ok (CaseExpr [PV (VBool true); PO And; PV (VBool false)]
+  spec_ok (CaseExpr [PV (VBool true); PO And; PV (VBool false)] no_oracles
                     {| o_kind := 0; o_val := VBool false |}) = true /\
-  same_words ([[121;101;115]%N] ++ false_words) spec_false_words = false.
+  same_words ([[121;101;115]%N] ++ false_words) spec_false_words = false /\
+  in_domain [{| cd_out := [110;111;10]%N; cd_exit := 0 |}; {| cd_out := [121;10]%N; cd_exit := 1 |}] = true /\
+  (* `!and { out no } { out y; false -s }` succeeds after running both blocks; an observation
+     that stopped after the first block is rejected *)
+  spec_ok (CaseBuiltin BAnd true
+             [{| cd_out := [110;111;10]%N; cd_exit := 0 |}; {| cd_out := [121;10]%N; cd_exit := 1 |}]
+             {| bo_ok := true; bo_flag := true; bo_exit := (-1)%Z; bo_count := 2 |}) = true /\
+  spec_ok (CaseBuiltin BAnd true
+             [{| cd_out := [110;111;10]%N; cd_exit := 0 |}; {| cd_out := [121;10]%N; cd_exit := 1 |}]
+             {| bo_ok := true; bo_flag := false; bo_exit := 1%Z; bo_count := 1 |}) = false.
 Proof. repeat split; vm_compute; reflexivity. Qed.
